@@ -14,6 +14,7 @@ HOOKS = {
     "SequOOL": lambda: monitors.sequool_hooks(),
     "Zooming": lambda: monitors.zooming_hooks(),
     "VROOM": lambda: monitors.vroom_hooks(),
+    "StroquOOL": lambda: monitors.stroquool_hooks(),
     "POO": lambda: monitors.poo_hooks(),
     "GPO": lambda: monitors.gpo_hooks("GPO"),
     "PCT": lambda: monitors.gpo_hooks("PCT"),
